@@ -1,5 +1,5 @@
 #!/usr/bin/env python3
-"""recheck_seeds_parallel.py [JOBS] - every kept seeded change against the quick checks its meta.json names, several at a time: each change is applied to
+"""recheck_seeds_parallel.py [JOBS [SUBSTRING ...]] - every kept seeded change (or, with SUBSTRINGs, those whose directory name contains one; the report file is then left alone) against the quick checks its meta.json names, several at a time: each change is applied to
 its own scratch copy of /repo's library (under /tmp, removed afterwards) and the checks run with CF_REPO=<copy> CF_SKIP_PROOF=1, i.e. this measures the
 correspondence runs only (a change inside a translated method is additionally rejected by its refinement proof, which is not exercised here).
 /repo itself is not touched. Output: reports/seeds_recheck.txt"""
@@ -26,10 +26,12 @@ def one(d):
     finally: shutil.rmtree(t, ignore_errors=True)
 def main():
     jobs = int(sys.argv[1]) if len(sys.argv) > 1 else 8
-    ds = sorted(glob.glob(os.path.join(V, "seeded", "*")))
+    ds = sorted(glob.glob(os.path.join(V, "seeded", "*"))); only = sys.argv[2:]
+    if only: ds = [d for d in ds if any(x in os.path.basename(d) for x in only)]
     out = []
     with cf.ThreadPoolExecutor(max_workers=jobs) as ex:
         for line in ex.map(one, ds): out.append(line); print(line); sys.stdout.flush()
+    if only: return
     os.makedirs(os.path.join(V, "reports"), exist_ok=True)
     hdr = "# %d kept changes, each applied to a scratch copy of the library (CF_REPO) and run against the quick checks named in its meta.json with CF_SKIP_PROOF=1 (correspondence runs only)\n" % len(ds)
     open(os.path.join(V, "reports", "seeds_recheck.txt"), "w").write(hdr + "\n".join(out) + "\n")
